@@ -292,7 +292,9 @@ impl<'a> Context<'a> {
         self.tokens
             .iter()
             .skip(self.last_statement)
-            .take(self.curr - self.last_statement)
+            // `prev()` can step back past the start of the statement (a loop body that is
+            // directly followed by the `end` of the enclosing block).
+            .take(self.curr.saturating_sub(self.last_statement))
             .filter_map(|t| match t {
                 Token::Comment(c) => Some(c.clone()),
                 _ => None,
